@@ -499,3 +499,128 @@ def _last_change(hist):
         if op in ("set_prms", "driver"):
             return op
     return "nothing"
+
+
+# ---------------------------------------------------------------------------
+# C17, second sentence: stocks built from definitions inside a system whose compute() runs in a scenario loop
+
+M17S = "scenario-loop-equals-fresh-system"
+
+
+def c17_system_case(rec, hub, rng, tier, i):
+    fd = hub.fd
+    items, gclass = time_grid(rng, tier, None)
+    items = items[: min(len(items), 9)]
+    if len(items) < 3:
+        items = [2000, 2001, 2002, 2003]
+    tdim = fd.Dimension(letter="t", name="time", items=list(items))
+    rdim = fd.Dimension(letter="r", name="region", items=["EUR", "USA", "CHN"][: int(rng.integers(1, 4))], dtype=str)
+    dims = fd.DimensionSet(dim_list=[tdim, rdim])
+    dtv = np.diff(np.array(items, dtype=float))
+    classes = [("InflowDrivenDSM", None), ("StockDrivenDSM", "manual"), ("StockDrivenDSM", "lapack"), ("SimpleFlowDrivenStock", None)]
+    lms = ["NormalLifetime", "LogNormalLifetime", "FoldedNormalLifetime", "WeibullLifetime", "FixedLifetime"]
+    n_st = int(rng.integers(1, 4))
+    sdefs = []
+    for k in range(n_st):
+        cn, solver = classes[int(rng.integers(0, len(classes)))]
+        lm = None if cn == "SimpleFlowDrivenStock" else lms[int(rng.integers(0, len(lms)))]
+        sdefs.append(dict(name=f"stock{k}", cls=cn, solver=solver, lm=lm))
+
+    def definitions():
+        out = []
+        for sd in sdefs:
+            kw = dict(name=sd["name"], process_name="use", dim_letters=("t", "r"), subclass=getattr(fd, sd["cls"]))
+            if sd["lm"]:
+                kw["lifetime_model_class"] = getattr(fd, sd["lm"])
+            if sd["solver"]:
+                kw["solver"] = sd["solver"]
+            out.append(fd.StockDefinition(**kw))
+        return out
+
+    class LoopMFA(fd.MFASystem):
+        def compute(self):
+            for name, s in self.stocks.items():
+                if isinstance(s, fd.StockDrivenDSM):
+                    s.stock[...] = self.parameters["drive"] * 10.0
+                else:
+                    s.inflow[...] = self.parameters["drive"]
+                if hasattr(s, "lifetime_model"):
+                    lmn = type(s.lifetime_model).__name__
+                    if lmn == "WeibullLifetime":
+                        s.lifetime_model.set_prms(weibull_shape=self.parameters["spread"] * 4.0 + 0.8, weibull_scale=self.parameters["mean"])
+                    elif lmn == "FixedLifetime":
+                        s.lifetime_model.set_prms(mean=self.parameters["mean"])
+                    else:
+                        s.lifetime_model.set_prms(mean=self.parameters["mean"], std=self.parameters["mean"] * self.parameters["spread"])
+                s.compute()
+
+    def build(values):
+        processes = fd.make_processes(["sysenv", "use"])
+        stocks = fd.make_empty_stocks(stock_definitions=definitions(), processes=processes, dims=dims)
+        params = {
+            "drive": fd.Parameter(dims=dims, values=values["drive"].copy(), name="drive"),
+            "mean": fd.Parameter(dims=dims[("r",)], values=values["mean"].copy(), name="mean"),
+            "spread": fd.Parameter(dims=fd.DimensionSet(dim_list=[]), values=np.array(values["spread"]), name="spread"),
+        }
+        return LoopMFA(dims=dims, parameters=params, processes=processes, flows={}, stocks=stocks)
+
+    def scenario():
+        return {"drive": rng.uniform(1.0, 100.0, size=dims.shape) if rng.random() < 0.85 else np.zeros(dims.shape),
+                "mean": rng.uniform(1.5 * float(dtv.max()), 3.0 * float(dtv.max()) + 5.0, size=(len(rdim.items),)), "spread": float(rng.uniform(0.15, 0.6))}
+
+    live = build(scenario())
+    n_sc = 5
+    for k in range(n_sc):
+        sc = scenario()
+        with quiet():
+            live.parameters["drive"][...] = sc["drive"]
+            live.parameters["mean"][...] = sc["mean"]
+            live.parameters["spread"][...] = sc["spread"]
+            try:
+                live.compute()
+                if rng.random() < 0.3:
+                    live.compute()
+            except Exception as e:
+                rec.violation(M17S, "scenario-loop-compute-raised", {"exc": f"{type(e).__name__}: {str(e)[:200]}", "scenario": k, "stocks": sdefs})
+                return
+            with hub.pause():
+                fresh = build(sc)
+                fresh.compute()
+        for sd in sdefs:
+            a, b = S.results_of(live.stocks[sd["name"]]), S.results_of(fresh.stocks[sd["name"]])
+            rec.event(M17S, sig=f"{sd['cls']}/{sd['solver']}|{sd['lm']}|{gclass}|sc={k}", cls=f"scenario|{sd['cls']}{('/' + sd['solver']) if sd['solver'] else ''}|{sd['lm']}",
+                      sample={"stocks": sdefs, "time_items": items, "scenario": k})
+            for q in a:
+                if np.any(~np.isfinite(a[q])) or np.any(~np.isfinite(b[q])):
+                    continue
+                ok, rel = allclose_scaled(a[q], b[q], 1e-12)
+                if not ok:
+                    rec.violation(M17S, f"scenario-{k if k == 0 else 'n'}-result-differs-from-fresh-system:{sd['cls']}", dict(quantity=q, scenario=k, stock=sd, rel_diff=rel, time_items=items))
+                    break
+
+
+def c17_example_case(rec, hub, rng):
+    """the shipped example system recomputed in a loop with changing parameters"""
+    fd = hub.fd
+    import importlib
+
+    eo = importlib.import_module("flodym.example_objects")
+    live = eo.get_example_mfa()
+    for k in range(4):
+        scale = float(rng.uniform(0.5, 2.0))
+        with quiet():
+            live.parameters["eol machines"][...] = live.parameters["eol machines"].values * scale
+            live.compute()
+            with hub.pause():
+                fresh = eo.get_example_mfa()
+                fresh.parameters["eol machines"][...] = live.parameters["eol machines"].values
+                fresh.compute()
+        rec.event(M17S, sig=f"example|{k}", cls="scenario|example_mfa")
+        for n in live.flows:
+            if not np.array_equal(live.flows[n].values, fresh.flows[n].values):
+                rec.violation(M17S, "example-system-recompute-differs-from-fresh", {"flow": n, "scenario": k})
+                return
+        for n in live.stocks:
+            if not np.array_equal(live.stocks[n].stock.values, fresh.stocks[n].stock.values):
+                rec.violation(M17S, "example-system-recompute-differs-from-fresh", {"stock": n, "scenario": k})
+                return
